@@ -59,6 +59,10 @@ impl TimeParser {
                 } else if let Some(f) = n.as_f64() {
                     // Treat float as seconds.
                     let secs = f.floor() as i64;
+                    // `as i64` saturates; accept only what chrono can represent (see format_timestamp)
+                    if Utc.timestamp_opt(secs, 0).single().is_none() {
+                        return Err(format!("Time value out of range: {n}"));
+                    }
                     *value = serde_json::Value::Number(secs.into());
                     Ok(())
                 } else {
